@@ -226,9 +226,7 @@ func (m *Machine) Exec(op Op) error {
 		m.gs.ctm = mm.Mul(m.gs.ctm)
 		m.gs.ctmAbs = mm.abs().Mul(m.gs.ctmAbs)
 	case "BT":
-		if m.inText {
-			return fmt.Errorf("nested BT")
-		}
+		// (a BT inside a text object - not in Figure 9 either - starts over like any BT: the matrices are reset)
 		m.inText = true
 		m.tm, m.tlm, m.tmAbs, m.tlmAbs = Identity(), Identity(), Identity(), Identity()
 		m.fresh = true
